@@ -4,7 +4,9 @@
 set -e
 patch="$1"; prop="$2"; subj="$3"; what="$4"; body="$5"
 cd /repo
-git apply --3way "$patch" 2>/dev/null || git apply "$patch"
+git apply "$patch" 2>/dev/null || git apply --3way "$patch" || { echo "PATCH DOES NOT APPLY: $patch"; git reset -q --hard HEAD; exit 1; }
+if git diff --name-only --diff-filter=U | grep -q .; then echo "CONFLICTS in $patch"; git reset -q --hard HEAD; exit 1; fi
+if grep -rl "^<<<<<<< " src >/dev/null 2>&1; then echo "CONFLICT MARKERS from $patch"; git reset -q --hard HEAD; exit 1; fi
 out=$(/venv/bin/python -m pytest -q -p no:cacheprovider -n 8 2>&1 | tail -1)
 echo "$out"
 case "$out" in *" failed"*|*" error"*|*" errors"*) echo "SUITE NOT GREEN, reverting"; git reset -q --hard HEAD; exit 1;; esac
